@@ -6,7 +6,7 @@
      src/coap_oscore.c            coap_oscore_new_pdu_encrypted_lkd: Partial IV = seq,
                                   oscore_increment_sender_seq, then
                                   if (seq > next_seq) { next_seq += ssn_freq; save(next_seq); }
-     src/oscore/oscore.c          oscore_increment_sender_seq (seq++, fails at OSCORE_SEQ_MAX)
+     src/oscore/oscore.c          oscore_increment_sender_seq (seq++, fails above OSCORE_SEQ_MAX)
 
    Definitions only.  All global names carry the prefix ss_. *)
 From Coq Require Import ZArith List Bool.
@@ -14,6 +14,7 @@ Import ListNotations.
 Local Open Scope Z_scope.
 
 Definition ss_seq_max : Z := 2 ^ 40 - 1.
+Definition ss_two64 : Z := 2 ^ 64.     (* seq and next_seq are uint64_t *)
 
 Record ss_state := { ss_seq : Z; ss_next : Z; ss_freq : Z }.
 
@@ -27,12 +28,14 @@ Definition ss_init (freq start : Z) : ss_state :=
    if it is invoked, state afterwards) *)
 Definition ss_protect (s : ss_state) : option Z * option Z * ss_state :=
   let piv := ss_seq s in
-  let seq' := ss_seq s + 1 in
-  if seq' >=? ss_seq_max then
-    (* oscore_increment_sender_seq returns 0: goto error, nothing is sent *)
+  let seq' := (ss_seq s + 1) mod ss_two64 in
+  if seq' >? ss_seq_max then
+    (* oscore_increment_sender_seq returns 0: goto error, nothing is sent.  (The Partial IV
+       just used must be below OSCORE_SEQ_MAX, the bound of the recipient's check; since
+       /repo 3381ec1 the last valid one, 2^40-2, is no longer refused.) *)
     (None, None, Build_ss_state seq' (ss_next s) (ss_freq s))
   else if seq' >? ss_next s then
-    let n := ss_next s + ss_freq s in
+    let n := (ss_next s + ss_freq s) mod ss_two64 in
     (Some piv, Some n, Build_ss_state seq' n (ss_freq s))
   else (Some piv, None, Build_ss_state seq' (ss_next s) (ss_freq s)).
 
@@ -40,18 +43,18 @@ Definition ss_protect (s : ss_state) : option Z * option Z * ss_state :=
    handed to the save callback; the configured start value before the first call) *)
 Record ss_sys := { ss_cur : ss_state; ss_saved : Z }.
 
-(* Protect a message, or crash and restart from storage (possibly with another ssn_freq) *)
-Inductive ss_op := Protect | Crash (freq : Z).
+(* protect a message, or crash and restart from storage (possibly with another ssn_freq) *)
+Inductive ss_op := SsProtect | SsCrash (freq : Z).
 
 Definition ss_boot (freq start : Z) : ss_sys := Build_ss_sys (ss_init freq start) start.
 
 (* -> (PIV put on the wire, value saved, system afterwards) *)
 Definition ss_step (y : ss_sys) (o : ss_op) : option Z * option Z * ss_sys :=
   match o with
-  | Protect =>
+  | SsProtect =>
     let '(piv, sv, s1) := ss_protect (ss_cur y) in
     (piv, sv, Build_ss_sys s1 (match sv with Some n => n | None => ss_saved y end))
-  | Crash f => (None, None, ss_boot f (ss_saved y))
+  | SsCrash f => (None, None, ss_boot f (ss_saved y))
   end.
 
 (* all Partial IVs put on the wire over a run, in order *)
